@@ -2472,6 +2472,13 @@ void mmd_end_complete_html(DString * out, const char * source, scratch_pad * scr
 
 
 void mmd_export_token_tree_html_raw(DString * out, const char * source, token * t, scratch_pad * scratch) {
+	// Prevent stack overflow with "dangerous" input causing extreme recursion
+	if (scratch->recurse_depth == kMaxExportRecursiveDepth) {
+		return;
+	}
+
+	scratch->recurse_depth++;
+
 	while (t != NULL) {
 		if (scratch->skip_token) {
 			scratch->skip_token--;
@@ -2481,10 +2488,19 @@ void mmd_export_token_tree_html_raw(DString * out, const char * source, token * 
 
 		t = t->next;
 	}
+
+	scratch->recurse_depth--;
 }
 
 
 void mmd_export_token_tree_html_math(DString * out, const char * source, token * t, scratch_pad * scratch) {
+	// Prevent stack overflow with "dangerous" input causing extreme recursion
+	if (scratch->recurse_depth == kMaxExportRecursiveDepth) {
+		return;
+	}
+
+	scratch->recurse_depth++;
+
 	while (t != NULL) {
 		if (scratch->skip_token) {
 			scratch->skip_token--;
@@ -2494,6 +2510,8 @@ void mmd_export_token_tree_html_math(DString * out, const char * source, token *
 
 		t = t->next;
 	}
+
+	scratch->recurse_depth--;
 }
 
 
